@@ -435,6 +435,9 @@ int KSI_TlvElement_appendElement(KSI_TlvElement *parent, KSI_TlvElement *child) 
 		goto cleanup;
 	}
 
+	/* Keep the payload length in step with the list, the way setting and removing an element do. */
+	parent->ftlv.dat_len += child->ftlv.hdr_len + child->ftlv.dat_len;
+
 	res = KSI_OK;
 
 cleanup:
